@@ -148,7 +148,7 @@ def _gen_events(rng, notes, total):
     mel = [x for x in notes if _melodic(x)]
     pitches = sorted(set(x[0] for x in mel)) or [60]
     times = set([x[1] for x in mel] + [x[2] for x in mel]) - {0, total}
-    T = len(times) + 1 + rng.choice([0, 0, 0, 1])
+    T = len(times) + 1      # exactly one event per frame: the decoder never returns a path of another length
     evs, cur = [], None
     for _ in range(T):
         c = rng.random()
